@@ -30,6 +30,7 @@ type c13X struct {
 	Final         []c13Expect // expected final replies (nil if no final response is due)
 	Expect        []string    // expected codes/classes of all replies after the RCPTs up to (excluding) the finals, e.g. "354", "250", "E" (error, single)
 	After         []string    // expected after the finals
+	Prelude       int         // an earlier transaction on the same connection, with other recipients: 0 none, 1 RSET after the recipients, 2 first BDAT refused for its size, 3 BDAT with a bad LAST token then RSET, 4 completed with DATA, 5 completed with BDAT LAST
 	Pre           int
 }
 
@@ -249,11 +250,50 @@ func genC13(t *Tape, tier string) *Scenario {
 		}
 		return 0
 	}
-	steps := []Step{{Kind: kGreetWait, Wait: 1}, {Kind: kHelo, Data: heloLine(sc.Srv), Wait: 1}, {Kind: kMail, Data: line("MAIL FROM:<ok-s@a.example>"), Wait: 1}}
+	steps := []Step{{Kind: kGreetWait, Wait: 1}, {Kind: kHelo, Data: heloLine(sc.Srv), Wait: 1}}
+	x.Pre = 2
+	// an earlier transaction on the same connection whose recipient list differs:
+	// nothing of it may show in the statuses of the one that is judged
+	x.Prelude = t.Named("c13prelude", 6)
+	if x.Prelude > 0 {
+		steps = append(steps, Step{Kind: kMail, Data: line("MAIL FROM:<ok-early@a.example>"), Wait: 1})
+		x.Pre++
+		k := 1 + t.Intn(3)
+		for i := 0; i < k; i++ {
+			steps = append(steps, Step{Kind: kRcpt, Data: line("RCPT TO:<%s>", []string{"ok-b@b.example", "ok-a@b.example", "ok-p@b.example"}[t.Intn(3)]), Wait: 1})
+			x.Pre++
+		}
+		switch x.Prelude {
+		case 1:
+			steps = append(steps, Step{Kind: kRset, Data: []byte("RSET\r\n"), Wait: 1})
+			x.Pre++
+		case 2:
+			sc.Srv.MaxMsg = 1000
+			steps = append(steps, Step{Kind: kBdat, Data: []byte("BDAT 1500 LAST\r\n"), Glue: true},
+				Step{Kind: kPayload, Data: mkMessage(1500), Wait: 1})
+			x.Pre++
+		case 3:
+			steps = append(steps, Step{Kind: kBdat, Data: []byte("BDAT 10 LAS\r\n"), Glue: true},
+				Step{Kind: kPayload, Data: mkMessage(10), Wait: 1},
+				Step{Kind: kRset, Data: []byte("RSET\r\n"), Wait: 1})
+			x.Pre += 2
+		case 4:
+			steps = append(steps, Step{Kind: kData, Data: []byte("DATA\r\n"), Wait: 1},
+				Step{Kind: kBody, Data: []byte("early message\r\n.\r\n"), Need: 354, Wait: -1})
+			x.Pre += 1 + k
+			sc.BE.Conns[0].Data = append([]DataPlan{{}}, sc.BE.Conns[0].Data...)
+		case 5:
+			steps = append(steps, Step{Kind: kBdat, Data: []byte("BDAT 15 LAST\r\n"), Glue: true, Last: true},
+				Step{Kind: kPayload, Data: []byte("early message\r\n"), Wait: -1})
+			x.Pre += k
+			sc.BE.Conns[0].Data = append([]DataPlan{{}}, sc.BE.Conns[0].Data...)
+		}
+	}
+	steps = append(steps, Step{Kind: kMail, Data: line("MAIL FROM:<ok-s@a.example>"), Wait: 1})
 	for _, r := range x.Rcpts {
 		steps = append(steps, Step{Kind: kRcpt, Data: line("RCPT TO:<%s>", r), Wait: 1})
 	}
-	x.Pre = 3 + len(x.Rcpts)
+	x.Pre += 1 + len(x.Rcpts)
 	x.Final = final
 	if !x.ViaBdat {
 		stream := append(append([]byte{}, msg...), ".\r\n"...)
@@ -314,7 +354,7 @@ func checkC13(sc *Scenario, h *History) []Violation {
 	var out []Violation
 	x := sc.X.(*c13X)
 	ch := h.Conns[0]
-	wit := fmt.Sprintf("rcpts=%v bdat=%v chunks=%v flavor=%d panic=%v earlyfail=%d/%d ooc=%v", x.Rcpts, x.ViaBdat, x.Chunks, x.Flavor, x.Panic, x.EarlyFail, x.FailChunk, x.OutOfContract)
+	wit := fmt.Sprintf("rcpts=%v bdat=%v chunks=%v flavor=%d panic=%v earlyfail=%d/%d ooc=%v prelude=%d", x.Rcpts, x.ViaBdat, x.Chunks, x.Flavor, x.Panic, x.EarlyFail, x.FailChunk, x.OutOfContract, x.Prelude)
 	if h.BubblePanic != "" && h.Leaked == 0 {
 		out = append(out, Violation{Rule: "C13.deadlock", Detail: h.BubblePanic, Witness: wit})
 	}
@@ -474,6 +514,9 @@ func classifyC13(sc *Scenario, h *History, st *Stats) string {
 	if x.EarlyOK {
 		st.Probes["backend_returns_nil_early"]++
 	}
+	if x.Prelude > 0 {
+		st.Probes["earlier_transaction_"+[]string{"", "ended_by_RSET", "BDAT_refused_for_size", "BDAT_malformed_then_RSET", "completed_with_DATA", "completed_with_BDAT"}[x.Prelude]]++
+	}
 	if x.EarlyFail >= 0 {
 		st.Probes["backend_fails_early"]++
 		if x.ViaBdat && x.FailChunk == len(x.Chunks)-1 {
@@ -511,7 +554,7 @@ func init() {
 				for f := 0; f < 2; f++ {
 					for b := 0; b < 2; b++ {
 						for m := 0; m < 4; m++ {
-							out = append(out, map[string]int{"c13flavor": f, "c13bdat": b, "c13mode": m})
+							out = append(out, map[string]int{"c13flavor": f, "c13bdat": b, "c13mode": m, "c13prelude": r % 6})
 						}
 					}
 				}
@@ -521,7 +564,7 @@ func init() {
 		Real:        []string{"smtp.Server.Serve/handleConn", "smtp.Conn handleDataLMTP, handleBdat (LMTP), statusCollector, delivery goroutines, panic recovery", "io.Pipe", "net/textproto", "bufio"},
 		Stub:        []string{"net.Listener (SimListener)", "net.Conn (SimConn)", "Backend/LMTPSession/StatusCollector caller (SimBackend)", "clock (synctest)", "LMTP client (raw driver)"},
 		Assumptions: []string{"statuses a backend set explicitly before it panicked are honoured; the others must not be 2xx", "out-of-contract backends are judged only for no deadlock / no crash"},
-		Required:    []string{"backend_fails_early_during_LAST_chunk", "backend_returns_nil_early", "backend_panic_logged_to_slow_sink", "duplicate_recipient", "out_of_contract_backend", "rejected_rcpt_interleaved", "backend_panic"},
+		Required:    []string{"backend_fails_early_during_LAST_chunk", "backend_returns_nil_early", "backend_panic_logged_to_slow_sink", "duplicate_recipient", "out_of_contract_backend", "rejected_rcpt_interleaved", "backend_panic", "earlier_transaction_BDAT_refused_for_size", "earlier_transaction_BDAT_malformed_then_RSET", "earlier_transaction_completed_with_BDAT"},
 		QuickRuns:   200000, ThoroughRuns: 4000000,
 	})
 }
